@@ -322,8 +322,8 @@ Qed.
 
 Lemma conv_error_spans_wellformed : conv_error_spans_wellformed_stmt.
 Proof.
-  intros fixed dfx stack src required fuel h pos key kl v Hp Hin.
-  destruct (header_spans_wellformed _ _ _ _ _ _ _ Hp) as [Hwf _].
+  intros fixed dfx cw stack src required fuel h pos key kl v Hp Hin.
+  destruct (header_spans_wellformed _ _ _ _ _ _ _ _ Hp) as [Hwf _].
   simpl in Hwf. apply Forall_cons_iff in Hwf. destruct Hwf as [_ Hwf].
   rewrite Forall_forall in Hwf.
   pose proof (value_spans_in_header h key kl v Hin) as Hincl.
@@ -340,11 +340,11 @@ Qed.
    section whose value does not convert (W2 = %grmtools{yacckind: Foo::Bar}) *)
 Example conv_error_hyps_witness :
   exists h pos key kl v locs,
-    parse_header_gen true true true None (fuel_for W2) W2 = Done (HOk h pos) /\
+    parse_header_gen true true true true None (fuel_for W2) W2 = Done (HOk h pos) /\
     In (key, (kl, v)) h /\ yacckind_try_from v = CvErr locs /\ length locs = 2 /\
     (exists locs', serformat_try_from v = CvErr locs' /\ length locs' = 2).
 Proof.
-  let r := eval vm_compute in (parse_header_gen true true true None (fuel_for W2) W2) in
+  let r := eval vm_compute in (parse_header_gen true true true true None (fuel_for W2) W2) in
   match r with
   | Done (HOk ((?key, (?kl, ?v)) :: ?t) ?pos) =>
       exists ((key, (kl, v)) :: t), pos, key, kl, v;
@@ -360,7 +360,7 @@ Qed.
 Ltac witness :=
   match goal with
   | |- yacckind_error_of ?src _ =>
-      let r := eval vm_compute in (parse_header_gen true true true None (fuel_for src) src) in
+      let r := eval vm_compute in (parse_header_gen true true true true None (fuel_for src) src) in
       match r with
       | Done (HOk ?h ?pos) =>
           let g := eval vm_compute in (hdr_get h S_yacckind) in
@@ -378,11 +378,11 @@ Proof. repeat split; witness. Qed.
    a documented form parses and converts *)
 Example yacckind_ok_witness :
   exists h pos kl v,
-    parse_header_gen true true true None (fuel_for WOK) WOK = Done (HOk h pos) /\
+    parse_header_gen true true true true None (fuel_for WOK) WOK = Done (HOk h pos) /\
     hdr_get h S_yacckind = Some (kl, v) /\
     yacckind_try_from v = CvOk (YkOriginal NoAction).
 Proof.
-  let r := eval vm_compute in (parse_header_gen true true true None (fuel_for WOK) WOK) in
+  let r := eval vm_compute in (parse_header_gen true true true true None (fuel_for WOK) WOK) in
   match r with
   | Done (HOk ?h ?pos) =>
       let g := eval vm_compute in (hdr_get h S_yacckind) in
